@@ -266,6 +266,7 @@ func (g *GoBackNConn) start() {
 		}
 
 		g.log.Debugf("receivePacketsForever stopped")
+		vtrace(g.timeoutManager, "rExit")
 	}()
 
 	g.wg.Add(1)
@@ -285,6 +286,7 @@ func (g *GoBackNConn) start() {
 		}
 
 		g.log.Debugf("sendPacketsForever stopped")
+		vtrace(g.timeoutManager, "sExit")
 	}()
 }
 
